@@ -99,6 +99,12 @@ def _apply(op, v, w, wl, s):
     if op == 'sort_table': return Table({'a': v, 'b': w}).sort_by('b') if all(x is None or type(x) in (int, bool) for x in wl) else None
     if op == 'left_join': return Table({'k': [0, 1][:len(v)], 'a': v}).join(Table({'k': [1, 5][:len(w)], 'b': w}), 'k', 'k', expect='many_to_many')
     if op == 'full_join': return Table({'k': [0, 1][:len(v)], 'a': v}).full_join(Table({'k': [1, 5][:len(w)], 'b': w}), 'k', 'k')
+    # joins in which only one side has unmatched rows (padding on one side only), or none
+    if op == 'full_join_right_extra': return Table({'k': [1, 5][:len(v)], 'a': v}).full_join(Table({'k': [1, 5, 7][:len(w) + 1], 'b': list(wl) + [wl[0]]}), 'k', 'k')
+    if op == 'full_join_left_extra': return Table({'k': [1, 5, 7][:len(v) + 1], 'a': list(v) + [v[0]]}).full_join(Table({'k': [1, 5][:len(w)], 'b': w}), 'k', 'k')
+    if op == 'full_join_all_matched': return Table({'k': [1, 5][:len(v)], 'a': v}).full_join(Table({'k': [5, 1] if len(w) == 2 else [1], 'b': w}), 'k', 'k')
+    if op == 'left_join_all_matched': return Table({'k': [1, 5][:len(v)], 'a': v}).join(Table({'k': [1, 5][:len(w)], 'b': w}), 'k', 'k', expect='many_to_many')
+    if op == 'inner_join': return Table({'k': [1, 5][:len(v)], 'a': v}).inner_join(Table({'k': [5, 9][:len(w)], 'b': w}), 'k', 'k', expect='many_to_many')
     if op == 'aggregate':
         return Table({'k': [0, 0, 1][:len(v)], 'a': v}).aggregate(over='k', sum_over='a', min_over='a', max_over='a', mean_over='a', count_over='a')
     if op == 'window':
@@ -282,7 +288,7 @@ def h_proxy(i0: int, i1: int, which: int) -> bool:
 BIN_OPS = ['add', 'sub', 'mul', 'truediv', 'floordiv', 'mod', 'pow', 'eq', 'lt', 'and', 'or']
 FORMS = ['vv', 'vs', 'sv', 'vl', 'lv']
 BIN_OTHER = ['concat_v', 'concat_l', 'concat_s', 'rconcat_l', 'rconcat_s', 'fillna', 'table_cols', 'rshift', 'sort_table', 'left_join', 'full_join',
-             'table_arith', 'table_T']
+             'table_arith', 'table_T', 'full_join_right_extra', 'full_join_left_extra', 'full_join_all_matched', 'left_join_all_matched', 'inner_join']
 UN = ['neg', 'pos', 'abs', 'invert', 'dropna', 'isna', 'to_object', 'unique', 'sort_by', 'copy', 'slice', 'mask', 'T',
       'cast_float', 'cast_int', 'cast_str', 'cast_bool', 'isinstance', 'aggregate', 'window']
 
